@@ -502,7 +502,12 @@ def fam_bind(r, idx, sweep=None, pc_only=False):
         aux = Func(namer.fresh("fn_aux_"), False)  # touches nothing
         spec.funcs.append(aux)
         pat = r.random()
-        if pat < 0.55:
+        for e_ in spec.entries:
+            pass
+        n_stages = len({e_.stage for e_ in spec.entries})
+        if n_stages < 2:
+            pat = max(pat, 0.7)  # the directed patterns need a second stage that stays out
+        if pat < 0.65:
             # in the directed patterns the leaf helper is the ONLY reader of the push constant
             for h_ in spec.funcs + spec.entries:
                 if h_ is not h:
@@ -520,11 +525,12 @@ def fam_bind(r, idx, sweep=None, pc_only=False):
             for c_ in r.choice([[h, mid], [h, mid], [mid, h]]):
                 call(e1, c_)
             call(e2, mid)
-        elif pat < 0.55:
-            # the reader first, then some helper called more than once in the same body
+        elif pat < 0.65:
+            # the reader first, then some helper called more than once in the same body (one
+            # entry point of one stage: every other stage stays out)
             e = r.choice(spec.entries)
-            for c_ in r.choice([[h, mid, mid], [h, aux, aux], [h, h], [mid, h, h], [mid, aux, aux],
-                                [aux, h, aux], [h, aux, mid, aux]]):
+            for c_ in r.choice([[h, mid, mid], [h, aux, aux], [mid, aux, aux], [h, aux, aux, mid],
+                                [h, aux, aux], [mid, h, h], [aux, h, aux]]):
                 call(e, c_)
         else:
             for e in r.sample(spec.entries, min(len(spec.entries), r.choice([1, 2, 2, 3]))):
